@@ -3,17 +3,17 @@
 // subset makes the translation of that function fail loudly (non-zero exit): never a silent fallback.
 //
 // Semantics emitted:
-//   * every arithmetic result of machine-integer type is wrapped to its declared type (wrapU n / wrapS n)
-//   * / and % are Go's truncated division (Z.quot / Z.rem); a non-constant divisor and every slice index
+//   - every arithmetic result of machine-integer type is wrapped to its declared type (wrapU n / wrapS n)
+//   - / and % are Go's truncated division (Z.quot / Z.rem); a non-constant divisor and every slice index
 //     produce a guard: the function then returns `res T` (Ok v | Panic)
-//   * *big.Int is an unbounded Z; big.Int methods are translated for fresh receivers / statement-level updates
-//   * constant expressions are folded by go/types (exactly the compiler's value)
-//   * scalar leaves hanging off struct/pointer parameters (x.F, x.F.G(), len(x.F)) become extra inputs
-//   * package-level variables refer to Consts.<Name> (dumped by execution) — Coq fails if it is missing
-//   * spec field "opaque": {"callee": "args"}: a function whose every return is `return callee(e1, .., en)` is translated
+//   - *big.Int is an unbounded Z; big.Int methods are translated for fresh receivers / statement-level updates
+//   - constant expressions are folded by go/types (exactly the compiler's value)
+//   - scalar leaves hanging off struct/pointer parameters (x.F, x.F.G(), len(x.F)) become extra inputs
+//   - package-level variables refer to Consts.<Name> (dumped by execution) — Coq fails if it is missing
+//   - spec field "opaque": {"callee": "args"}: a function whose every return is `return callee(e1, .., en)` is translated
 //     to the tuple (e1, .., en) of the callee's arguments (the range/argument computation is translated, the callee is not)
-//   * spec field "oracles": ["bytes.Compare"]: a call of a listed external function becomes an extra input (its result)
-//   * b[i] on a []byte / [N]byte parameter with a constant index becomes the leaf input b_i (a byte, 0..255) guarded by
+//   - spec field "oracles": ["bytes.Compare"]: a call of a listed external function becomes an extra input (its result)
+//   - b[i] on a []byte / [N]byte parameter with a constant index becomes the leaf input b_i (a byte, 0..255) guarded by
 //     i < len_b (leaf input), so an out-of-range index is a Panic of the translated function
 package main
 
@@ -47,6 +47,11 @@ type SpecFn struct {
 	// OutFields ("block.TotalPlasma:u64"): fields written through a pointer parameter; their final values are appended
 	// to every returned tuple (the initial value is an input).
 	OutFields []string `json:"out_fields,omitempty"`
+	// NilGuard: every *big.Int input x that hangs off a parameter gets a companion input x_nonnil : bool; calling a
+	// method on x is guarded by it (nil dereference = Panic), `x != nil` / `x == nil` read it.
+	NilGuard bool `json:"nil_guard,omitempty"`
+	// VarInputs: package-level variables that the translated function takes as inputs instead of the dumped value
+	VarInputs []string `json:"var_inputs,omitempty"`
 }
 type Spec struct {
 	Functions []SpecFn `json:"functions"`
@@ -65,28 +70,49 @@ var fset *token.FileSet
 
 var partialFns = map[string]bool{}
 
+// inputs of an already translated function that hang off its parameters: a caller supplies them by substituting its
+// own argument expressions for the parameter
+type leafInfo struct {
+	coqTy string
+	name  string
+	expr  ast.Expr // nil: cannot be supplied by a caller (oracle result, slice element, list)
+	typ   types.Type
+	pre   string
+}
+type fnInfoT struct {
+	recv   string
+	params []string // Coq-visible parameter names in Go order ("" = outside the subset)
+	pnames []string // Go names
+	leaves []leafInfo
+}
+
+var fnInfo = map[string]*fnInfoT{}
+
 type ctx struct {
-	info    *types.Info
-	pkg     *types.Package
-	spec    SpecFn
-	locals  map[string]types.Type // declared locals + params (scalar)
-	leaves  []string              // extra inputs in order of first appearance
-	leafTy  map[string]string
-	partial bool
-	params  map[string]bool // names of Go parameters (any type)
-	known   map[string]*SpecFn
-	results *types.Tuple
-	errs    map[string]bool
-	pending []pend
-	nbind   int
-	opaqueK []string // kinds of the opaque callee's arguments (result type of the translated function)
-	loopVal map[string]string           // loop variables of loops being unrolled -> current constant value
-	iters   map[*ast.EmptyStmt]*iterInfo // continuation markers of unrolled loops
-	contCode map[*ast.EmptyStmt]string  // continuation markers of range loops -> code of "next element"
-	nrange  int
-	oracleN map[string]int              // per oracle name: calls seen so far
-	opaqueL map[string]bool             // locals of unsupported type (usable only as arguments of oracle calls)
-	outF    []string                    // Coq names of the out fields
+	info       *types.Info
+	pkg        *types.Package
+	spec       SpecFn
+	locals     map[string]types.Type // declared locals + params (scalar)
+	leaves     []string              // extra inputs in order of first appearance
+	leafTy     map[string]string
+	partial    bool
+	params     map[string]bool // names of Go parameters (any type)
+	known      map[string]*SpecFn
+	results    *types.Tuple
+	errs       map[string]bool
+	pending    []pend
+	nbind      int
+	opaqueK    []string                     // kinds of the opaque callee's arguments (result type of the translated function)
+	loopVal    map[string]string            // loop variables of loops being unrolled -> current constant value
+	iters      map[*ast.EmptyStmt]*iterInfo // continuation markers of unrolled loops
+	contCode   map[*ast.EmptyStmt]string    // continuation markers of range loops -> code of "next element"
+	nrange     int
+	leafSrc    map[string]leafInfo
+	alias      map[string]ast.Expr // opaque local -> the parameter-rooted expression it was defined as
+	oracleN    map[string]int      // per oracle name: calls seen so far
+	oracleSite map[token.Pos]int
+	opaqueL    map[string]bool // locals of unsupported type (usable only as arguments of oracle calls)
+	outF       []string        // Coq names of the out fields
 }
 
 // one unrolled `for i := c0; i <cmp> c1; i++/i--` loop: after the body of iteration idx comes the marker, which starts
@@ -426,7 +452,6 @@ func (c *ctx) rootParam(e ast.Expr) bool {
 	return false
 }
 
-
 // oracleName: "" unless x is a call of a new-style oracle (".Method" or same-package "Func") of the spec
 func (c *ctx) oracleName(x *ast.CallExpr) string {
 	switch f := x.Fun.(type) {
@@ -456,8 +481,17 @@ func (c *ctx) oracleResults(x *ast.CallExpr, name string) []string {
 	if c.oracleN == nil {
 		c.oracleN = map[string]int{}
 	}
-	c.oracleN[name]++
-	n := c.oracleN[name]
+	// one number per call SITE: the continuation of a branch is translated once per branch, the same call must keep
+	// its inputs
+	if c.oracleSite == nil {
+		c.oracleSite = map[token.Pos]int{}
+	}
+	n, seen := c.oracleSite[x.Pos()]
+	if !seen {
+		c.oracleN[name]++
+		n = c.oracleN[name]
+		c.oracleSite[x.Pos()] = n
+	}
 	var kinds []string
 	switch t := c.info.Types[x].Type.(type) {
 	case *types.Tuple:
@@ -474,8 +508,10 @@ func (c *ctx) oracleResults(x *ast.CallExpr, name string) []string {
 			continue
 		}
 		nm := fmt.Sprintf("%s_%d_%d", name, n, i)
-		c.leafTy[nm] = coqTy(k)
-		c.leaves = append(c.leaves, nm)
+		if _, ok := c.leafTy[nm]; !ok {
+			c.leafTy[nm] = coqTy(k)
+			c.leaves = append(c.leaves, nm)
+		}
 		names = append(names, nm)
 	}
 	return names
@@ -490,12 +526,149 @@ func (c *ctx) fieldName(e ast.Expr) (string, bool) {
 }
 
 func (c *ctx) leaf(e ast.Expr, k string, prefix string) gexp {
+	if len(c.alias) > 0 {
+		t := c.info.Types[e]
+		e = substParams(e, c.alias)
+		if _, ok := c.info.Types[e]; !ok {
+			c.info.Types[e] = t
+		}
+	}
 	name := prefix + sanitize(exprString(e))
 	if _, ok := c.leafTy[name]; !ok {
 		c.leafTy[name] = coqTy(k)
 		c.leaves = append(c.leaves, name)
+		if c.leafSrc == nil {
+			c.leafSrc = map[string]leafInfo{}
+		}
+		c.leafSrc[name] = leafInfo{name: name, expr: e, typ: c.info.Types[e].Type, pre: prefix}
 	}
 	return gexp{e: name}
+}
+
+// nonnil: the companion input of a *big.Int input (spec nil_guard)
+func (c *ctx) nonnil(e ast.Expr) string {
+	if len(c.alias) > 0 {
+		e = substParams(e, c.alias)
+	}
+	name := sanitize(exprString(e)) + "_nonnil"
+	if _, ok := c.leafTy[name]; !ok {
+		c.leafTy[name] = "bool"
+		c.leaves = append(c.leaves, name)
+		if c.leafSrc == nil {
+			c.leafSrc = map[string]leafInfo{}
+		}
+		c.leafSrc[name] = leafInfo{name: name, expr: e, pre: "nonnil:"}
+	}
+	return name
+}
+
+// substParams: copy of e with the identifiers named in repl (parameters of a callee) replaced
+func substParams(e ast.Expr, repl map[string]ast.Expr) ast.Expr {
+	switch x := e.(type) {
+	case *ast.Ident:
+		if r, ok := repl[x.Name]; ok {
+			return r
+		}
+		return x
+	case *ast.SelectorExpr:
+		return &ast.SelectorExpr{X: substParams(x.X, repl), Sel: x.Sel}
+	case *ast.CallExpr:
+		n := &ast.CallExpr{Fun: substParams(x.Fun, repl), Lparen: x.Lparen, Rparen: x.Rparen}
+		for _, a := range x.Args {
+			n.Args = append(n.Args, substParams(a, repl))
+		}
+		return n
+	case *ast.StarExpr:
+		return &ast.StarExpr{X: substParams(x.X, repl)}
+	case *ast.ParenExpr:
+		return &ast.ParenExpr{X: substParams(x.X, repl)}
+	case *ast.UnaryExpr:
+		return &ast.UnaryExpr{Op: x.Op, X: substParams(x.X, repl)}
+	}
+	return e
+}
+
+// rootsAreParams: every identifier at the root of a selector chain in e (incl. call arguments) is a parameter / opaque
+// local of the function being translated, or a package name
+func (c *ctx) rootsAreParams(e ast.Expr) bool {
+	switch x := e.(type) {
+	case *ast.Ident:
+		if c.params[x.Name] && c.locals[x.Name] == nil {
+			return true
+		}
+		if _, isPkg := c.info.Uses[x].(*types.PkgName); isPkg {
+			return true
+		}
+		return x.Obj == nil && c.locals[x.Name] == nil && !c.params[x.Name] && x.Name != "" && isPkgLike(x.Name)
+	case *ast.SelectorExpr:
+		return c.rootsAreParams(x.X)
+	case *ast.CallExpr:
+		if !c.rootsAreParams(x.Fun) {
+			return false
+		}
+		for _, a := range x.Args {
+			if !c.rootsAreParams(a) {
+				return false
+			}
+		}
+		return true
+	case *ast.StarExpr:
+		return c.rootsAreParams(x.X)
+	case *ast.ParenExpr:
+		return c.rootsAreParams(x.X)
+	case *ast.UnaryExpr:
+		return c.rootsAreParams(x.X)
+	}
+	return false
+}
+
+// a package identifier coming from another package's syntax tree (no entry in this package's Uses)
+func isPkgLike(name string) bool {
+	switch name {
+	case "types", "bytes", "nom", "definition", "constants", "common":
+		return true
+	}
+	return false
+}
+
+func call2name(c *ctx, call *ast.CallExpr) string {
+	if c.oracleN == nil {
+		c.oracleN = map[string]int{}
+	}
+	return c.oracleName(call)
+}
+
+func rootIdent(e ast.Expr) *ast.Ident {
+	switch x := e.(type) {
+	case *ast.Ident:
+		return x
+	case *ast.SelectorExpr:
+		return rootIdent(x.X)
+	case *ast.CallExpr:
+		return rootIdent(x.Fun)
+	case *ast.StarExpr:
+		return rootIdent(x.X)
+	case *ast.ParenExpr:
+		return rootIdent(x.X)
+	}
+	return nil
+}
+
+// substRoot: copy of the selector / zero-argument call chain e with its root identifier replaced by repl
+func substRoot(e ast.Expr, repl ast.Expr) ast.Expr {
+	switch x := e.(type) {
+	case *ast.Ident:
+		return repl
+	case *ast.SelectorExpr:
+		return &ast.SelectorExpr{X: substRoot(x.X, repl), Sel: x.Sel}
+	case *ast.CallExpr:
+		return &ast.CallExpr{Fun: substRoot(x.Fun, repl), Lparen: x.Lparen, Rparen: x.Rparen}
+	case *ast.StarExpr:
+		return &ast.StarExpr{X: substRoot(x.X, repl)}
+	case *ast.ParenExpr:
+		return &ast.ParenExpr{X: substRoot(x.X, repl)}
+	}
+	return e
 }
 
 func merge(a, b []string) []string { return append(append([]string{}, a...), b...) }
@@ -597,6 +770,16 @@ func (c *ctx) expr(e ast.Expr) gexp {
 
 func (c *ctx) pkgVar(v *types.Var, pos token.Pos) gexp {
 	t := v.Type()
+	for _, vi := range c.spec.VarInputs {
+		if vi == v.Name() && kindOf(t) != "" {
+			nm := "var_" + v.Name()
+			if _, ok := c.leafTy[nm]; !ok {
+				c.leafTy[nm] = coqTy(kindOf(t))
+				c.leaves = append(c.leaves, nm)
+			}
+			return gexp{e: nm}
+		}
+	}
 	ok := kindOf(t) != ""
 	if s, isS := t.Underlying().(*types.Slice); isS && kindOf(s.Elem()) != "" {
 		ok = true
@@ -616,6 +799,9 @@ func isByteArray(t types.Type) bool {
 	if t == nil {
 		return false
 	}
+	if _, ok := t.Underlying().(*types.Struct); ok && types.Comparable(t) && !isBig(t) {
+		return true // a comparable struct (HashHeight, AccountHeader): compared as one abstract number
+	}
 	a, ok := t.Underlying().(*types.Array)
 	if !ok {
 		return false
@@ -630,6 +816,15 @@ func (c *ctx) binary(x *ast.BinaryExpr, k string) gexp {
 	if (x.Op == token.EQL || x.Op == token.NEQ) && isByteArray(c.info.Types[x.X].Type) && isByteArray(c.info.Types[x.Y].Type) &&
 		kindOf(c.info.Types[x.X].Type) != "le64" {
 		side := func(e ast.Expr) gexp {
+			if sel, ok := e.(*ast.SelectorExpr); ok {
+				if id, ok := sel.X.(*ast.Ident); ok {
+					if _, isPkg := c.info.Uses[id].(*types.PkgName); isPkg {
+						if v, ok := c.info.Uses[sel.Sel].(*types.Var); ok {
+							return gexp{e: "Consts." + v.Name()}
+						}
+					}
+				}
+			}
 			if !c.rootParam(e) {
 				bad(e.Pos(), "byte-array comparison of %s which does not hang off a parameter", exprString(e))
 			}
@@ -640,6 +835,46 @@ func (c *ctx) binary(x *ast.BinaryExpr, k string) gexp {
 			return gexp{e: "(" + a.e + " =? " + b.e + ")"}
 		}
 		return gexp{e: "(negb (" + a.e + " =? " + b.e + "))"}
+	}
+	if x.Op == token.EQL || x.Op == token.NEQ {
+		isNil := func(e ast.Expr) bool { id, ok := e.(*ast.Ident); return ok && id.Name == "nil" }
+		isPtr := func(e ast.Expr) bool {
+			t := c.info.Types[e].Type
+			if t == nil || isBig(t) {
+				return false
+			}
+			_, ok := t.Underlying().(*types.Pointer)
+			return ok
+		}
+		var ptr ast.Expr
+		if isNil(x.Y) && isPtr(x.X) && c.rootParam(x.X) {
+			ptr = x.X
+		} else if isNil(x.X) && isPtr(x.Y) && c.rootParam(x.Y) {
+			ptr = x.Y
+		}
+		if ptr != nil {
+			nn := c.nonnil(ptr)
+			if x.Op == token.NEQ {
+				return gexp{e: nn}
+			}
+			return gexp{e: "(negb " + nn + ")"}
+		}
+	}
+	if (x.Op == token.EQL || x.Op == token.NEQ) && c.spec.NilGuard {
+		isNil := func(e ast.Expr) bool { id, ok := e.(*ast.Ident); return ok && id.Name == "nil" }
+		var ptr ast.Expr
+		if isNil(x.Y) && isBig(c.info.Types[x.X].Type) && c.rootParam(x.X) {
+			ptr = x.X
+		} else if isNil(x.X) && isBig(c.info.Types[x.Y].Type) && c.rootParam(x.Y) {
+			ptr = x.Y
+		}
+		if ptr != nil {
+			nn := c.nonnil(ptr)
+			if x.Op == token.NEQ {
+				return gexp{e: nn}
+			}
+			return gexp{e: "(negb " + nn + ")"}
+		}
 	}
 	a := c.expr(x.X)
 	b := c.expr(x.Y)
@@ -793,6 +1028,9 @@ func (c *ctx) call(x *ast.CallExpr, k string) gexp {
 		if id, ok := sel.X.(*ast.Ident); ok {
 			if pn, isPkg := c.info.Uses[id].(*types.PkgName); isPkg && (pn.Imported().Path() == "github.com/pkg/errors" || pn.Imported().Path() == "errors" || pn.Imported().Path() == "fmt") &&
 				(sel.Sel.Name == "Errorf" || sel.Sel.Name == "New") && len(x.Args) >= 1 {
+				if lit, ok := x.Args[0].(*ast.BasicLit); ok && lit.Kind == token.STRING && strings.HasPrefix(strings.Trim(lit.Value, "\"`"), "%w") && len(x.Args) >= 2 {
+					return c.expr(x.Args[1]) // the wrapped sentinel is the identity of the error (errors.Is)
+				}
 				if lit, ok := x.Args[0].(*ast.BasicLit); ok && lit.Kind == token.STRING {
 					msg := strings.Map(func(r rune) rune {
 						if (r >= 'a' && r <= 'z') || (r >= 'A' && r <= 'Z') || (r >= '0' && r <= '9') {
@@ -845,6 +1083,20 @@ func (c *ctx) call(x *ast.CallExpr, k string) gexp {
 			}
 		}
 		recvT := c.info.Types[f.X].Type
+		if recvT != nil && isBig(recvT) && c.spec.NilGuard && c.rootParam(f.X) {
+			switch f.Sel.Name {
+			case "Sign", "Cmp", "Uint64", "Int64", "BitLen", "IsUint64":
+				nn := c.nonnil(f.X)
+				c.partial = true
+				cp := *c
+				_ = cp
+				sub := c.spec.NilGuard
+				c.spec.NilGuard = false
+				r := c.call(x, k)
+				c.spec.NilGuard = sub
+				return gexp{r.e, append([]string{nn}, r.g...)}
+			}
+		}
 		if recvT != nil && isBig(recvT) {
 			// observers
 			switch f.Sel.Name {
@@ -874,6 +1126,12 @@ func (c *ctx) call(x *ast.CallExpr, k string) gexp {
 				}
 			}
 			bad(x.Pos(), "big.Int method %s on a non-fresh receiver used as a value (aliasing not modelled)", f.Sel.Name)
+		}
+		// a method that is itself in the translation spec
+		if obj, ok := c.info.Uses[f.Sel].(*types.Func); ok && obj.Pkg() != nil {
+			if _, isKnown := c.known[funcKey(obj)]; isKnown {
+				return c.knownCall(obj, x)
+			}
 		}
 		// zero-arg method chain on a parameter: leaf
 		if len(x.Args) == 0 && c.rootParam(x) && k != "" {
@@ -926,10 +1184,64 @@ func (c *ctx) knownCall(obj *types.Func, x *ast.CallExpr) gexp {
 	}
 	var g []string
 	s := "(" + f.Coq
-	for _, a := range x.Args {
+	fi := fnInfo[f.Coq]
+	for i, a := range x.Args {
+		if fi != nil && i < len(fi.params) && fi.params[i] == "" {
+			continue // a parameter outside the subset: only its leaves are passed
+		}
 		ae := c.expr(a)
 		g = merge(g, ae.g)
 		s += " " + ae.e
+	}
+	if fi != nil {
+		repl := map[string]ast.Expr{}
+		if sel, ok := x.Fun.(*ast.SelectorExpr); ok && fi.recv != "" {
+			repl[fi.recv] = sel.X
+		}
+		for i, pn := range fi.pnames {
+			if i < len(x.Args) && pn != "" && pn != "_" {
+				repl[pn] = x.Args[i]
+			}
+		}
+		for _, lf := range fi.leaves {
+			adopt := lf.expr == nil
+			if lf.expr != nil {
+				// inputs hanging off a local of the callee (an oracle result kept as an opaque local) cannot be expressed
+				// in the caller's terms either
+				if r := rootIdent(lf.expr); r != nil && !isPkgLike(r.Name) {
+					if _, ok := repl[r.Name]; !ok {
+						adopt = true
+					}
+				}
+			}
+			if adopt && lf.coqTy != "" {
+				// an oracle result / variable input of the callee: the caller takes it over as its own input
+				nm := f.Coq + "__" + lf.name
+				if _, ok := c.leafTy[nm]; !ok {
+					c.leafTy[nm] = lf.coqTy
+					c.leaves = append(c.leaves, nm)
+				}
+				s += " " + nm
+				continue
+			}
+			if lf.expr == nil || (lf.pre != "" && lf.pre != "nonnil:") {
+				bad(x.Pos(), "callee %s has the input %s which a caller cannot supply", f.Coq, lf.name)
+			}
+			ne := substParams(lf.expr, repl)
+			if !c.rootsAreParams(ne) {
+				bad(x.Pos(), "callee %s: its input %s becomes %s here, which does not hang off parameters", f.Coq, lf.name, exprString(ne))
+			}
+			c.info.Types[ne] = types.TypeAndValue{Type: lf.typ}
+			if lf.pre == "nonnil:" {
+				s += " " + c.nonnil(ne)
+				continue
+			}
+			k := "big"
+			if lf.coqTy == "bool" {
+				k = "bool"
+			}
+			s += " " + c.leaf(ne, k, "").e
+		}
 	}
 	s += ")"
 	part, done := partialFns[f.Coq]
@@ -1303,7 +1615,10 @@ func (c *ctx) iterate(it *iterInfo) string {
 }
 
 func (c *ctx) declThen(gd *ast.GenDecl, rest []ast.Stmt) string {
-	type b struct{ name, val string; g []string }
+	type b struct {
+		name, val string
+		g         []string
+	}
 	var binds []b
 	for _, sp := range gd.Specs {
 		vs := sp.(*ast.ValueSpec)
@@ -1439,9 +1754,22 @@ func (c *ctx) assign(x *ast.AssignStmt, rest []ast.Stmt) string {
 			return guardWrap(v.g, "(let "+fn+" := "+v.e+" in "+c.stmts(rest)+")")
 		}
 	}
-	if len(x.Lhs) == 1 && x.Tok == token.DEFINE && len(c.spec.Oracles) > 0 {
+	if len(x.Lhs) == 1 && x.Tok == token.DEFINE {
 		if id, ok := x.Lhs[0].(*ast.Ident); ok {
 			if d := c.info.Defs[id]; d != nil && kindOf(d.Type()) == "" {
+				if c.shadows(id) {
+					bad(id.Pos(), "declaration of %s shadows an outer variable (not supported)", id.Name)
+				}
+				if call, isCall := x.Rhs[0].(*ast.CallExpr); !(isCall && c.oracleName(call) != "") && c.rootParam(x.Rhs[0]) {
+					if c.alias == nil {
+						c.alias = map[string]ast.Expr{}
+					}
+					c.alias[id.Name] = substParams(x.Rhs[0], c.alias)
+				} else if isCall && c.oracleName(call) != "" {
+					c.oracleN[call2name(c, call)]++ // a distinct result per call: the local's own name identifies it
+				} else {
+					bad(x.Pos(), "local %s of a type outside the subset is neither an oracle result nor hangs off a parameter", id.Name)
+				}
 				// a local of a type outside the subset: may only be passed on to oracle calls (whose arguments are not translated)
 				if c.opaqueL == nil {
 					c.opaqueL = map[string]bool{}
@@ -1452,7 +1780,10 @@ func (c *ctx) assign(x *ast.AssignStmt, rest []ast.Stmt) string {
 			}
 		}
 	}
-	type b struct{ name, val string; g []string }
+	type b struct {
+		name, val string
+		g         []string
+	}
 	var binds []b
 	for i, l := range x.Lhs {
 		id, ok := l.(*ast.Ident)
@@ -1604,7 +1935,14 @@ func (c *ctx) shadows(id *ast.Ident) bool {
 	}
 	_, outer := obj.Parent().Parent().LookupParent(id.Name, id.Pos())
 	if v, ok := outer.(*types.Var); ok && v.Pkg() != nil && v.Parent() != v.Pkg().Scope() {
-		return true
+		// harmless when the outer variable is dead after the scope of the inner one: no later use refers to it
+		end := obj.Parent().End()
+		for uid, uobj := range c.info.Uses {
+			if uobj == outer && uid.Pos() > end {
+				return true
+			}
+		}
+		return false
 	}
 	return false
 }
@@ -1684,6 +2022,28 @@ func translate(p *packages.Package, f SpecFn, known map[string]*SpecFn, errs map
 	pos := fset.Position(fd.Pos())
 	fmt.Fprintf(&sb, "(* %s.%s  —  %s:%d *)\n", f.Pkg, f.Func, strings.TrimPrefix(pos.Filename, "/repo/"), pos.Line)
 	partialFns[f.Coq] = c.partial
+	fi := &fnInfoT{}
+	if sig.Recv() != nil {
+		fi.recv = sig.Recv().Name()
+	}
+	for i := 0; i < sig.Params().Len(); i++ {
+		v := sig.Params().At(i)
+		fi.pnames = append(fi.pnames, v.Name())
+		if k := kindOf(v.Type()); k != "" && k != "err" {
+			fi.params = append(fi.params, v.Name())
+		} else {
+			fi.params = append(fi.params, "")
+		}
+	}
+	for _, l := range c.leaves {
+		if li, ok := c.leafSrc[l]; ok {
+			li.coqTy = c.leafTy[l]
+			fi.leaves = append(fi.leaves, li)
+		} else {
+			fi.leaves = append(fi.leaves, leafInfo{name: l, coqTy: c.leafTy[l]})
+		}
+	}
+	fnInfo[f.Coq] = fi
 	if c.partial {
 		body = strings.ReplaceAll(body, "(RET ", "(Ok ")
 		fmt.Fprintf(&sb, "Definition %s %s : res (%s) :=\n  %s.\n", f.Coq, strings.Join(coqParams, " "), rt, body)
